@@ -42,6 +42,18 @@ def run(ctx):
             a = arg_nodes(c)[0]
             ok = mentions(a, t_une) and not mentions(a, t_raw)
             r.check(ok, "%s|key-from-unescaped#%d" % (where, i), "", "dependency key is built from %s" % expr_str(a)[:60], f, c)
+        # every reported dependency is registered: no exit skips all registration calls (a path that cannot be normalised excepted)
+        bf0 = BranchFacts(f, kill="assign")
+        dps = set(cfg.pos_of(f, c) for c in dd)
+        legit = set(cfg.pos_of(f, x) for x in f.nodes if x.get("k") == "return" and
+                    any((not p) and "normalize_path" in a for a, p in (bf0.at_node(x) or frozenset())))
+        w = cfg.path_exists(f, cfg.entry_pos(f), cfg.is_exit, avoid=lambda p, e: p in dps or p in legit)
+        if w is not None and where.startswith("SwiftCompilerShellCommand") and all(
+                any(p and a.replace(" ", "") in ("(ruleNumber==0)", "(0==ruleNumber)") for a, p in (bf0.at_node(c) or frozenset())) for c in dd):
+            r.exempt("%s|no-dependency-dropped" % where, "Swift tool design: swiftc writes one rule per output with identical dependency lists, only the first rule "
+                     "is registered (comment at the site); the same selection exists as an explicit deps-style for the shell tool", f)
+        else:
+            r.check(w is None, "%s|no-dependency-dropped" % where, "", "a dependency named by the file can be skipped without being registered", f, path=w)
         is_shell = "buildsystem::ShellCommand::processMakefile" in f.key
         if is_shell or "NinjaBuildCommand" in relpath(f.file):
             # a relative word is resolved against the working directory
@@ -233,6 +245,10 @@ def short_name(f):
 
 
 VARIANTS = [
+    dict(name="shell-deps-skip-declared-inputs", file="lib/BuildSystem/ShellCommand.cpp",
+         old="      if (llvm::sys::path::is_absolute(unescapedWord)) {\n        ti.discoveredDependency(BuildKey::makeNode(unescapedWord).toData());",
+         new="      for (auto* in: command->getInputs()) { if (in->getName() == unescapedWord) return; }\n      if (llvm::sys::path::is_absolute(unescapedWord)) {\n        ti.discoveredDependency(BuildKey::makeNode(unescapedWord).toData());",
+         expect=("R-DEPS-UNESCAPED", "no-dependency-dropped")),
     dict(name="backslash-unescaped-only-before-special", file="lib/Core/MakefileDepsParser.cpp", old="      if (c == ' ' || c == '#' || c == '\\\\') {",
          new="      if (c == ' ' || c == '#' || (c == '\\\\' && cur + 1 != end && (cur[1] == ' ' || cur[1] == '#'))) {", expect=("R-ESCAPE-TABLE", "escape-set")),
     dict(name="shell-deps-key-from-raw-token", file="lib/BuildSystem/ShellCommand.cpp",
